@@ -62,6 +62,17 @@ def handle (req : Json) : R Json := do
       | .notPassed => Json.null).toArray
     pure (Json.mkObj [("impl_leniency", run typeHasObject), ("strict", run fun _ => false),
       ("lenient", run fun _ => true), ("flags", flags), ("distinct_keys", dk)])
+  | "parse_serialize" => do
+    let tables ← getTables req
+    let sv ← decVal (← req.getObjVal? "schema")
+    let schema ← decSchema sv
+    let cx : PCtx := { ci := tables.charInfo }
+    match parseNamed1 cx schema with
+    | .error e => pure (Json.mkObj [("parse", "err"), ("kind", perrName e)])
+    | .ok el =>
+      match serializeJson [el] [] with
+      | .ok j => pure (Json.mkObj [("parse", "ok"), ("r", "ok"), ("json", encVal j), ("elem", encElem el)])
+      | .error _ => pure (Json.mkObj [("parse", "ok"), ("r", "err"), ("elem", encElem el)])
   | "serialize_json" => do
     let els ← (← (← req.getObjVal? "elements").getArr?).toList.mapM decElem
     let defs ← match getField req "definitions" with
